@@ -159,6 +159,13 @@ class Gen:
         self.classes.append(c)
         return c
 
+    def class_fields(self, c: dict) -> List[list]:
+        """[name, default] pairs of a class known to this generator (descriptions of values may omit them)"""
+        for k in self.classes:
+            if k["id"] == c.get("id"):
+                return k.get("fields") or []
+        return c.get("fields") or []
+
     def sub_value(self, base_ty: str) -> dict:
         c = self.new_class(3, base=base_ty)
         inner = self.atom(base_ty) if base_ty not in ("list", "dict", "set", "tuple") else self.container_of(base_ty)
